@@ -19,6 +19,7 @@ let no_macro = ref false
 let with_close = ref false
 let cacts : cact list ref = ref []
 let ncok = ref 0
+let prog_acts = ref ""
 let stack : (state * int) list ref = ref [ (init_state, 0) ]
 let case_id = ref ""
 let case_spec = ref ""
@@ -301,11 +302,12 @@ let () =
     | "CA" :: "lock" :: i :: st :: _ -> cacts := CLock (nat_of_int (int_of_string i), n_i (int_of_string st)) :: !cacts
     | "CA" :: "ret" :: i :: b :: _ -> cacts := CRet (nat_of_int (int_of_string i), b = "1") :: !cacts
     | "CA" :: "unlock" :: i :: c :: _ -> cacts := CUnlock (nat_of_int (int_of_string i), n_i (int_of_string c)) :: !cacts
+    | "ACTS" :: a :: _ -> prog_acts := a
     | "END" :: _ when !cacts <> [] ->
         (* the caller contract, checked with the extracted client_okb on the client actions of the real consumer *)
         if client_okb (List.rev !cacts) then incr ncok
         else begin incr pfail;
-          print_endline (String.concat "\t" ["PROPFAIL"; "P"; "client_ok"; !case_id; !case_spec; String.concat " " (List.rev !ops);
+          print_endline (String.concat "\t" ["PROPFAIL"; "P"; "client_ok"; !case_id; !case_spec; (if !prog_acts <> "" then !prog_acts else String.concat " " (List.rev !ops));
             "the client actions observed on the real consumer (Lock / return / UnLock) violate the caller contract client_ok (extracted client_okb = false): a lock that returned was not handed back, or a commit ts was set on a stale lock"]) end;
         cacts := []
     | "AUTO" :: i :: _ -> Hashtbl.replace auto (int_of_string i) ()
